@@ -10,7 +10,8 @@
   `number_literal_value` / `number_value_decimal_partial` (signed decimal literals with fraction and exponent),
   `act_parse_render_tokens` (the round trip for ANY tokens with the right class and fields),
   `act_string_roundtrip` (token STRINGS as the restart reader prints them, lexed by the model's lexer),
-  `restart_constant_is_number`, `restart_integer_constant_roundtrip_partial` (`format_double`).
+  `restart_constant_is_number`, `restart_integer_constant_roundtrip_partial` (`format_double`),
+  `number_value_decimal` (no range hypothesis: the cut-offs of `ofDec` are roundings), `glob_bracket_set` / `glob_bracket_negset`.
 
   Fourth round: `classify_number_partial`, `number_value_digits` (integer literals of any length are number
   tokens; their value is the correctly rounded binary64), the model computes number values itself and
@@ -36,6 +37,8 @@ import OpmVerif.Proofs.ActionParseKit
 import OpmVerif.Proofs.ActionString
 import OpmVerif.Proofs.ActionFmt
 import OpmVerif.Proofs.ActionRestart
+import OpmVerif.Proofs.ActionNumFull
+import OpmVerif.Proofs.ActionBracket
 
 namespace OpmVerif.Props.C18
 open OpmVerif.Act
@@ -320,6 +323,57 @@ theorem number_value_decimal_partial (sg ip : List Char) (frac : Option (List Ch
       2 * (num * 2 ^ 1074 - q * (den * 2 ^ eo)) ≤ den * 2 ^ eo ∧
       2 * (q * (den * 2 ^ eo) - num * 2 ^ 1074) ≤ den * 2 ^ eo :=
   decLit_value_correctly_rounded sg ip frac ex hsg hip hfp hne hex hm h1 h2
+
+/-- **the value of a signed decimal literal, unconditional**: `number_value_decimal_partial` without its range
+hypotheses — the ±400 cut-offs of `Strtod.ofDec` return exactly what rounding returns (`ofDec_eq_rounding`:
+`den·2^1025 ≤ num` rounds to overflow, `num·2^1076 < den` rounds to 0), using `10^(nd−1) ≤ m < 10^nd` for the
+digit string (`dval_sigdigits`).  For every literal with a non-zero digit string the stored bits are the encoding
+of the correctly rounded binary64 of `± m·10^e10` (±inf when that exceeds the range).  What remains outside: the
+exponent cap of `expVal` (more than 6 significant exponent digits are read as 1000000). -/
+theorem number_value_decimal (sg ip : List Char) (frac : Option (List Char))
+    (ex : Option (Char × List Char × List Char))
+    (hsg : SignG sg) (hip : Digits ip) (hfp : Digits (fracDigits frac))
+    (hne : ip ++ fracDigits frac ≠ []) (hex : ExpOk ex)
+    (hm : Strtod.dval (ip ++ fracDigits frac) ≠ 0) :
+    let m := Strtod.dval (ip ++ fracDigits frac)
+    let e10 : Int := expVal ex - (fracDigits frac).length
+    let num := decNum m e10
+    let den := decDen e10
+    let q := (Strtod.roundCore num den).1
+    let eo := (Strtod.roundCore num den).2
+    numBits (decLit sg ip frac ex) = some (encBits (decide (sg = ['-'])) q eo) ∧
+      q < 2 ^ 53 ∧ (eo = 0 ∨ 2 ^ 52 ≤ q) ∧
+      2 * (num * 2 ^ 1074 - q * (den * 2 ^ eo)) ≤ den * 2 ^ eo ∧
+      2 * (q * (den * 2 ^ eo) - num * 2 ^ 1074) ≤ den * 2 ^ eo :=
+  decLit_value_full sg ip frac ex hsg hip hfp hne hex hm
+
+/-- … and a literal whose digits are all zero is ±0 -/
+theorem number_value_zero (sg ip : List Char) (frac : Option (List Char))
+    (ex : Option (Char × List Char × List Char))
+    (hsg : SignG sg) (hip : Digits ip) (hfp : Digits (fracDigits frac))
+    (hne : ip ++ fracDigits frac ≠ []) (hex : ExpOk ex)
+    (hm : Strtod.dval (ip ++ fracDigits frac) = 0) :
+    numBits (decLit sg ip frac ex) = some (if sg = ['-'] then 2 ^ 63 else 0) :=
+  decLit_value_zero sg ip frac ex hsg hip hfp hne hex hm
+
+/-- **bracket expressions of well patterns** (`fnmatch`): `[members]` with plain members (no `]`, `\`, `-`, `[`; not
+starting with `!` / `^`), any number of them, followed by any rest pattern `q`, matches a name `d :: t` iff `d` is
+one of the members and `q` matches `t`; … -/
+theorem glob_bracket_set (cs q : List Char) (d : Char) (t : List Char) (h : PlainSet cs) :
+    globMatch ('[' :: (cs ++ ']' :: q)) (d :: t) = (decide (d ∈ cs) && globMatch q t) :=
+  OpmVerif.Act.glob_bracket_set cs q d t h
+
+/-- … and the negated forms `[!members]`, `[^members]` iff `d` is none of them -/
+theorem glob_bracket_negset (cs q : List Char) (d : Char) (t : List Char) (hne : cs ≠ [])
+    (hall : ∀ c ∈ cs, PlainMember c) :
+    globMatch ('[' :: '!' :: (cs ++ ']' :: q)) (d :: t) = (decide (d ∉ cs) && globMatch q t) ∧
+    globMatch ('[' :: '^' :: (cs ++ ']' :: q)) (d :: t) = (decide (d ∉ cs) && globMatch q t) :=
+  ⟨OpmVerif.Act.glob_bracket_negset cs q d t hne hall, glob_bracket_negset_caret cs q d t hne hall⟩
+
+example : PlainSet "12".toList := by decide +kernel
+example : globMatch "P[12]*".toList "P2A".toList = true ∧ globMatch "P[!12]*".toList "P3".toList = true := by
+  decide +kernel
+example : Strtod.dval ("1".toList ++ fracDigits (some "5".toList)) ≠ 0 := by decide
 
 /-- **the parser round trip for ANY tokens**: whatever tokens stand for `(`, `)`, `AND`, `OR`, the comparators,
 the numbers, the function names and the arguments — as long as they have the right class and carry the fields
